@@ -810,6 +810,10 @@ func (g *G) callExpr(d int) *Node {
 		return Call(Dot(Id(pick(g, fns, "cf")), "apply"), g.thisArg(), N("arr", args...))
 	case c == 5 && len(fns) > 0:
 		bound := Call(Dot(Id(pick(g, fns, "cf")), "bind"), append([]*Node{g.thisArg()}, args...)...)
+		if g.coin(40, "rebind") {
+			// a bound function bound again: the first this value and the first arguments stay (15.3.4.5.1)
+			bound = Call(Dot(bound, "bind"), g.thisArg(), g.expr(kAny, 0))
+		}
 		return Call(bound, g.expr(kAny, 0))
 	case c == 6 && len(g.sc.ctors) > 0:
 		return &Node{K: "new", C: append([]*Node{Id(pick(g, g.sc.ctors, "nc"))}, args...)}
@@ -1018,7 +1022,11 @@ func (g *G) expr(k kind, d int) *Node {
 			return fn
 		case 3:
 			if len(g.sc.fns) > 0 {
-				return Call(Dot(Id(pick(g, g.sc.fns, "bf")), "bind"), g.thisArg(), g.expr(kAny, d-1))
+				b := Call(Dot(Id(pick(g, g.sc.fns, "bf")), "bind"), g.thisArg(), g.expr(kAny, d-1))
+				if g.coin(30, "rebind") {
+					b = Call(Dot(b, "bind"), g.thisArg())
+				}
+				return b
 			}
 			return g.literal(kFn)
 		case 4:
